@@ -51,9 +51,11 @@ def scan_tz_calls(prog, module_infos):
                 if not has_tz:
                     hits.append((site, path + ' without tz'))
             elif isinstance(node.func, ast.Attribute):
-                if node.func.attr == 'astimezone' and not node.args and \
-                        not node.keywords:
-                    hits.append((site, '.astimezone() without argument'))
+                if node.func.attr == 'astimezone':
+                    # without argument: converts to local time; with an
+                    # argument: a naive receiver is taken as local time
+                    hits.append((site, '.astimezone(...) (local time is '
+                                 'consulted for naive receivers)'))
                 elif node.func.attr in ('mktime', 'localtime', 'ctime',
                                         'utcfromtimestamp', 'utcnow',
                                         'strftime') and path is None:
